@@ -19,7 +19,10 @@ def solo_baseline(wseeds, udp=False):
     binh = os.path.join(core.HARNESS_DIR, "harness")
 
     def one(ws):
-        p = subprocess.run([binh], input="c19solo %d%s\n" % (ws, " udp" if udp else ""), stdout=subprocess.PIPE, stderr=subprocess.PIPE, text=True, timeout=300)
+        try:
+            p = subprocess.run([binh], input="c19solo %d%s\n" % (ws, " udp" if udp else ""), stdout=subprocess.PIPE, stderr=subprocess.PIPE, text=True, timeout=300)
+        except subprocess.TimeoutExpired:
+            return ws, None
         if p.returncode != 0:
             return ws, None
         return ws, json.loads(p.stdout.strip())["obs"]
@@ -75,10 +78,22 @@ def run(ch, build):
         nsx = ns if not udp else ([8, 16] if ch.quick() else list(range(2, 17, 2)))
         sdx = seeds if not udp else seeds[:2 if ch.quick() else 20]
         base = solo_baseline(sorted({sd * 100 + i for sd in sdx for i in range(max(nsx))}), udp)
+        missing = sorted(w for w, o in base.items() if o is None)
+        if missing:
+            # a workload that completes within seconds on a sound tree did not complete alone within five minutes
+            ch.violation({"kind": "c19", "transport": "udp" if udp else "memory", "family": "alone"},
+                         {"workload_seeds": missing[:8], "udp": udp, "what": "a workload run alone in a fresh process failed or did not finish within 300 s"})
         for n in nsx:
             for sd in sdx:
-                p = subprocess.run([binr], input="c19 %d %d%s\n" % (n, sd, " udp" if udp else ""), stdout=subprocess.PIPE, stderr=subprocess.PIPE,
-                                   text=True, timeout=900, env=dict(os.environ, GORACE="halt_on_error=0 exitcode=66"))
+                if ch.violations:
+                    break       # one counter-example is enough; the remaining configurations only repeat it (slowly, if commands now time out)
+                try:
+                    p = subprocess.run([binr], input="c19 %d %d%s\n" % (n, sd, " udp" if udp else ""), stdout=subprocess.PIPE, stderr=subprocess.PIPE,
+                                       text=True, timeout=900, env=dict(os.environ, GORACE="halt_on_error=0 exitcode=66"))
+                except subprocess.TimeoutExpired:
+                    ch.violation({"kind": "c19", "n": n, "transport": "udp" if udp else "memory"},
+                                 {"n": n, "seed": sd, "udp": udp, "what": "the concurrent run did not finish within 900 s (alone, each workload takes seconds)"})
+                    continue
                 ch.note_case("c19-run-" + ("udp" if udp else "memory"), "%d|%d" % (n, sd))
                 total_steps += judge(ch, n, sd, p, base, udp)
         ch.extra["fresh_process_baselines_" + ("udp" if udp else "memory")] = len(base)
